@@ -60,6 +60,24 @@ Theorem C06_oracle_holds : forall c t0 ops, clean c ops -> let w := run src_shap
 Proof. exact (fun c t0 ops H => proj1 (proj2 (T_oracles src_shape C06_source_shape c t0 ops H))). Qed.
 Print Assumptions C06_oracle_holds.
 
+(* ---- names: the active file and foreign files can never be taken for rotated files ---- *)
+
+(* the recogniser rejects the active file's own name, for every base name and suffix *)
+Theorem C06_active_name_not_rotated : forall c, parse_name c (active_name c) = None.
+Proof. exact (parse_rejects_active). Qed.
+Print Assumptions C06_active_name_not_rotated.
+
+(* and no rendered rotated name equals it *)
+Theorem C06_rotated_name_not_active : forall c f, render c f <> active_name c.
+Proof. exact (render_not_active). Qed.
+Print Assumptions C06_rotated_name_not_active.
+
+(* the foreign files of every reachable directory have pairwise distinct names outside the scheme, none of them the active name *)
+Theorem C06_foreign_names_stay_foreign : forall c t0 ops, clean c ops -> let w := run src_shape c t0 ops in NoDup (map xname (foreign w)) /\
+  Forall (fun x => parse_name c (xname x) = None /\ xname x <> active_name c) (foreign w).
+Proof. exact (fun c t0 ops H => T_foreign_ok src_shape C06_source_shape c t0 ops H). Qed.
+Print Assumptions C06_foreign_names_stay_foreign.
+
 (* non-vacuity: ten rotations within one timestamp tick (1 s granularity), N = 3: indices 9 -> 10 are
    crossed, the two newest rotated files survive, a look-alike foreign name is rejected *)
 Example C06_nonvacuous :
